@@ -151,6 +151,67 @@ theorem hashDel_fold_ticks (fs : List Nat) (c : Stamp) (h : NMap Lww)
       simp only [List.any_cons, hg, Option.isSome_none, Bool.false_or] at hany
       exact ih c h hany
 
+/-! ### equations of the record functions by case -/
+
+theorem kind_lww {c : Crdt} (h : c.kind = 0) : ∃ r, c = .lww r := by
+  cases c <;> simp [Crdt.kind] at h; exact ⟨_, rfl⟩
+
+theorem kind_hash {c : Crdt} (h : c.kind = 5) : ∃ m, c = .hash m := by
+  cases c <;> simp [Crdt.kind] at h; exact ⟨_, rfl⟩
+
+theorem recordDelete_none {s : Shard} {k : Nat} (hg : NMap.get s.keys k = none) :
+    recordDelete s k = (s, none) := by simp [recordDelete, hg]
+
+theorem recordDelete_lww {s : Shard} {k : Nat} {rv : RV} {r : Lww}
+    (hg : NMap.get s.keys k = some rv) (hc : rv.crdt = .lww r) :
+    recordDelete s k =
+      ({ s with clock := s.clock.tick,
+                keys := NMap.insert k
+                  { rv with crdt := .lww (Lww.delete s.clock.tick), ts := s.clock.tick } s.keys },
+       some { rv with crdt := .lww (Lww.delete s.clock.tick), ts := s.clock.tick }) := by
+  simp [recordDelete, hg, hc]
+
+/-- the value `record_delete` stores and emits for a hash value -/
+def delHashValue (s : Shard) (rv : RV) (h : NMap Lww) : RV :=
+  { rv with crdt := .hash (NMap.mapVal (fun _ => Lww.delete s.clock.tick) h), ts := s.clock.tick }
+
+theorem recordDelete_hash {s : Shard} {k : Nat} {rv : RV} {h : NMap Lww}
+    (hg : NMap.get s.keys k = some rv) (hc : rv.crdt = .hash h) :
+    recordDelete s k =
+      ({ s with clock := s.clock.tick, keys := NMap.insert k (delHashValue s rv h) s.keys },
+       some (delHashValue s rv h)) := by
+  simp [recordDelete, hg, hc, delHashValue]
+
+theorem recordDelete_other {s : Shard} {k : Nat} {rv : RV}
+    (hg : NMap.get s.keys k = some rv) (hc : rv.crdt.kind ≠ 0) (hc5 : rv.crdt.kind ≠ 5) :
+    recordDelete s k = (s, some rv) := by
+  simp only [recordDelete, hg]
+  cases h : rv.crdt <;> simp_all [Crdt.kind]
+
+theorem recordHashDelete_none {s : Shard} {k : Nat} {fs : List Nat}
+    (hg : NMap.get s.keys k = none) : recordHashDelete s k fs = (s, none) := by
+  simp [recordHashDelete, hg]
+
+/-- the value `record_hash_delete` stores and emits for a hash value -/
+def hdelValue (s : Shard) (rv : RV) (h : NMap Lww) (fs : List Nat) : RV :=
+  { rv with
+    crdt := .hash (fs.foldl hashDelStep (s.clock, h)).2
+    ts := if fs.isEmpty then rv.ts else (fs.foldl hashDelStep (s.clock, h)).1 }
+
+theorem recordHashDelete_hash {s : Shard} {k : Nat} {fs : List Nat} {rv : RV} {h : NMap Lww}
+    (hg : NMap.get s.keys k = some rv) (hc : rv.crdt = .hash h) :
+    recordHashDelete s k fs =
+      ({ s with clock := (fs.foldl hashDelStep (s.clock, h)).1,
+                keys := NMap.insert k (hdelValue s rv h fs) s.keys },
+       some (hdelValue s rv h fs)) := by
+  simp [recordHashDelete, hg, hc, hdelValue]
+
+theorem recordHashDelete_other {s : Shard} {k : Nat} {fs : List Nat} {rv : RV}
+    (hg : NMap.get s.keys k = some rv) (hc : rv.crdt.kind ≠ 5) :
+    recordHashDelete s k fs = (s, none) := by
+  simp only [recordHashDelete, hg]
+  cases h : rv.crdt <;> simp_all [Crdt.kind]
+
 /-! ### merge keeps domination: a merge never invents a stamp -/
 
 theorem inner_tryMerge {a b m : Crdt} (h : Crdt.tryMerge a b = some m) :
